@@ -22,12 +22,16 @@ BodyRest == << ExprS(P(5, V("p"))), ExprS(P(6, CallE("arrayLength", <<V("rest")>
 BodyNone == << Assign("loc", Nm(1)), ExprS(P(8, V("loc"))), ExprS(P(9, V("x"))) >>
 BodyCallsFf == << Assign("x", Nm(5)), Assign("r", CallE("ff", <<V("x"), V("x"), V("x")>>)), ExprS(P(10, V("x"))), RetE(V("r")) >>
 BodyLib == << ExprS(P(11, Nm(0))), RetE(Nm(42)) >>
+\* the "..." array belongs to the call: what one call pushes onto it is not there in the next call
+BodyRestPush == << ExprS(P(12, CallE("arrayLength", <<V("rest")>>))), ExprS(CallE("arrayPush", <<V("rest"), Nm(7)>>)),
+                   RetE(CallE("arrayLength", <<V("rest")>>)) >>
 
 Alphabet == <<
     Assign("x", Nm(1)), Assign("gv", Nm(7)),
     Assign("r", CallE("ff", <<>>)), Assign("r", CallE("ff", <<V("x")>>)),
     Assign("r", CallE("ff", <<Nm(1), Nm(2)>>)), Assign("r", CallE("ff", <<Nm(1), Nm(2), Nm(3), Nm(4)>>)),
     Assign("r", CallE("gg", <<Nm(1)>>)),
+    Assign("r", CallE("arrayNew", <<CallE("ff", <<>>), CallE("ff", <<>>), CallE("ff", <<Nm(1)>>)>>)),      \* three calls in one statement
     Assign("r", CallE("arrayLength", <<CallE("arrayNew", <<Nm(1), Nm(2)>>)>>)),
     Assign("fv", V("ff")), Assign("r", CallE("fv", <<Nm(3)>>)),
     ExprS(P(20, V("x"))), ExprS(P(21, V("r"))), ExprS(P(22, V("gv"))), ExprS(P(23, V("loc"))),
@@ -36,6 +40,7 @@ Alphabet == <<
     Fun("ff", <<"p", "rest">>, TRUE, BodyRest),
     Fun("ff", <<"rest">>, TRUE, BodyRest),
     Fun("ff", <<>>, FALSE, BodyNone),
+    Fun("ff", <<"rest">>, TRUE, BodyRestPush),
     Fun("gg", <<"x">>, FALSE, BodyCallsFf),
     Fun("arrayLength", <<"a">>, FALSE, BodyLib) >>
 
